@@ -3,10 +3,13 @@ package main
 import (
 	"fmt"
 	"go/ast"
+	"go/token"
 	"go/types"
+	"os"
 	"sort"
 	"strings"
 
+	"golang.org/x/tools/go/packages"
 	"golang.org/x/tools/go/ssa"
 	"golang.org/x/tools/go/types/typeutil"
 )
@@ -41,6 +44,158 @@ func runC17(c *Ctx) {
 	driverStateRule(c, "driver-keeps-no-state", driverMethods, o)
 	poolDisciplineRule(c)
 	lazyInitRule(c)
+	atomicUpdateRule(c)
+}
+
+// atomicUpdateRule: a package-level atomic cell or concurrent map is individually safe, but a
+// function that loads it and later stores into it has a window in which another update is lost
+// (or a check is stale) unless the pair is one compare-and-swap / LoadOrStore, or runs under a
+// write lock.
+func atomicUpdateRule(c *Ctx) {
+	const R = "atomic-update-not-lost"
+	c.rule(R, "no function outside initialisation both loads and stores the same package-level atomic cell (atomic.Pointer/Value/Int*/Bool) or sync.Map — in its own body or in closures it creates — unless it uses CompareAndSwap/LoadOrStore/Swap-based retry on that variable or holds a write lock: load → compute → store loses a concurrent update")
+	isCell := func(g *ssa.Global) bool {
+		t := g.Type().(*types.Pointer).Elem()
+		ts := types.TypeString(t, nil)
+		return strings.HasPrefix(ts, "sync/atomic.") || ts == "sync.Map"
+	}
+	type use struct {
+		load, store, cas, lock bool
+		pos                    token.Pos
+	}
+	uses := map[*ssa.Global]map[*ssa.Function]*use{}
+	cells := 0
+	seenCell := map[*ssa.Global]bool{}
+	for _, fn := range c.P.Funcs {
+		if fn.Blocks == nil || fn.Pkg == nil || !strings.HasPrefix(fn.Pkg.Pkg.Path(), modPath+"/") {
+			continue
+		}
+		owner := fn
+		for owner.Parent() != nil {
+			// a closure handed to sync.Once.Do runs at most once: it is initialisation
+			owner = owner.Parent()
+		}
+		if isInitFn(owner) {
+			continue
+		}
+		onceBody := false
+		if fn.Parent() != nil {
+			for _, ref := range refsOfClosure(fn) {
+				if call, ok := ref.(ssa.CallInstruction); ok {
+					if sc := call.Common().StaticCallee(); sc != nil && sc.String() == "(*sync.Once).Do" {
+						onceBody = true
+					}
+				}
+			}
+		}
+		if onceBody {
+			continue
+		}
+		locked := false
+		for _, b := range fn.Blocks {
+			for _, ins := range b.Instrs {
+				call, ok := ins.(ssa.CallInstruction)
+				if !ok {
+					continue
+				}
+				sc := call.Common().StaticCallee()
+				if sc == nil || len(call.Common().Args) == 0 {
+					continue
+				}
+				if full := sc.String(); full == "(*sync.Mutex).Lock" || full == "(*sync.RWMutex).Lock" {
+					locked = true
+				}
+				g, isG := call.Common().Args[0].(*ssa.Global)
+				if !isG || !c.P.inModuleGlobal(g) || !isCell(g) {
+					continue
+				}
+				if !seenCell[g] {
+					seenCell[g] = true
+					cells++
+				}
+				if uses[g] == nil {
+					uses[g] = map[*ssa.Function]*use{}
+				}
+				u := uses[g][owner]
+				if u == nil {
+					u = &use{}
+					uses[g][owner] = u
+				}
+				mname := sc.Name()
+				if o := sc.Origin(); o != nil {
+					mname = o.Name()
+				}
+				if i := strings.Index(mname, "["); i >= 0 {
+					mname = mname[:i]
+				}
+				switch mname {
+				case "Load", "Range":
+					u.load = true
+				case "Store", "Delete", "Add", "Clear":
+					u.store = true
+					if u.pos == token.NoPos {
+						u.pos = ins.Pos()
+					}
+				case "CompareAndSwap", "LoadOrStore", "CompareAndDelete", "LoadAndDelete":
+					u.cas = true
+				}
+			}
+		}
+		for _, m := range uses {
+			if u := m[owner]; u != nil && locked {
+				u.lock = true
+			}
+		}
+	}
+	n := 0
+	for g, m := range uses {
+		for fn, u := range m {
+			n++
+			construct := globalName(g) + "@" + fnName(fn)
+			if os.Getenv("PROTOLINT_DEBUG_ATOMIC") != "" {
+				fmt.Fprintf(os.Stderr, "atomic %s %+v\n", construct, *u)
+			}
+			bad := u.load && u.store && !u.cas && !u.lock
+			c.check(!bad, R, construct, c.P.Pos(u.pos), "no load-then-store window",
+				fmt.Sprintf("%s loads %s and later stores into it without compare-and-swap or a write lock: of two concurrent callers one update is lost, a result no sequential order of the calls produces", fnName(fn), globalName(g)))
+		}
+	}
+	if n == 0 {
+		c.okTrivial(R, "none", "-", "no atomic cell or concurrent map is used outside initialisation")
+	}
+	_ = cells
+}
+
+// refsOfClosure: instructions that use the closure value made from fn in its parent.
+func refsOfClosure(fn *ssa.Function) []ssa.Instruction {
+	var out []ssa.Instruction
+	par := fn.Parent()
+	if par == nil {
+		return nil
+	}
+	for _, b := range par.Blocks {
+		for _, ins := range b.Instrs {
+			var v ssa.Value
+			switch x := ins.(type) {
+			case *ssa.MakeClosure:
+				if x.Fn == ssa.Value(fn) {
+					v = x
+				}
+			}
+			if v != nil {
+				if refs := v.Referrers(); refs != nil {
+					out = append(out, *refs...)
+				}
+			}
+			// a closure without free variables is used as a plain function value
+			for _, op := range ins.Operands(nil) {
+				if *op == ssa.Value(fn) {
+					out = append(out, ins)
+				}
+			}
+		}
+	}
+	return out
 }
 
 // hiddenState reports package-level variables touched from the entries that are not init-only.
@@ -294,6 +449,7 @@ func runC18(c *Ctx) {
 			fmt.Sprintf("the option's effect depends on package-level state that changes after initialisation %v: the same constructor call configures instances differently depending on what else ran before", gr))
 	}
 	c.floor("option-writes-instance-only", 8, "five writer options and five reader options")
+	optionWritesOwnStorage(c)
 	for _, name := range []string{"reader.New", "writer.New"} {
 		fn := c.P.Func(name)
 		if fn == nil {
@@ -439,6 +595,30 @@ func perCallReads(c *Ctx, name string) {
 				ok2 = true
 			}
 		}
+		if !ok2 {
+			// the test may be on a local that holds the per-call value: x := opt.F; if x == "" { x = recv.Options.F }
+			chain := enclosing(d.fd.Body, sel)
+			for i, en := range chain {
+				ifs, isIf := en.(*ast.IfStmt)
+				if !isIf || i+1 >= len(chain) {
+					continue
+				}
+				positive := chain[i+1] == ast.Node(ifs.Body)
+				if !positive && chain[i+1] != ifs.Else {
+					continue
+				}
+				for l, f := range localCopiesOf(d.pkg, d.fd.Body, opt, ifs.Pos()) {
+					if f != what {
+						continue
+					}
+					for _, fa := range condFactsLocal(d.pkg, ifs.Cond, positive, l) {
+						if !fa {
+							ok2 = true
+						}
+					}
+				}
+			}
+		}
 		c.check(ok2, R, construct, c.P.Pos(sel.Pos()),
 			"receiver's "+what+" is read only as the fallback when the per-call "+what+" is empty",
 			fmt.Sprintf("%s reads the receiver's Options.%s instead of the per-call options' (not under an emptiness test of %s.%s): options given to a single call are ignored", name, what, opt.Name(), what))
@@ -448,6 +628,199 @@ func perCallReads(c *Ctx, name string) {
 		c.okTrivial(R, name, c.P.Pos(d.fd.Pos()), "no read through the receiver's options")
 	}
 	_ = typeutil.Callee
+}
+
+// optionWritesOwnStorage: the option closures and the setter methods of the Options types write
+// only storage the instance owns. A value that reached the instance as an argument (a captured
+// variable, a parameter other than the instance/receiver) or that is held behind an interface in the
+// instance's option table is the caller's: the same value may configure another instance.
+func optionWritesOwnStorage(c *Ctx) {
+	const R = "option-writes-own-storage"
+	c.rule(R, "in the ReaderOption/WriterOption closures and the methods of the reader/writer Options types every field store and map update targets memory rooted at the instance (first parameter / receiver) or freshly allocated; none goes through a captured argument, another parameter, or a value taken out of an interface (format options are stored as the caller's value)")
+	var fns []*ssa.Function
+	for _, fn := range c.P.Funcs {
+		if fn.Pkg == nil || fn.Blocks == nil {
+			continue
+		}
+		pp := fn.Pkg.Pkg.Path()
+		if !strings.HasSuffix(pp, "/pkg/reader") && !strings.HasSuffix(pp, "/pkg/writer") {
+			continue
+		}
+		if par := fn.Parent(); par != nil && par.Signature.Results().Len() == 1 {
+			if nt, ok := par.Signature.Results().At(0).Type().(*types.Named); ok && (nt.Obj().Name() == "ReaderOption" || nt.Obj().Name() == "WriterOption") {
+				fns = append(fns, fn)
+			}
+			continue
+		}
+		if rv := fn.Signature.Recv(); rv != nil {
+			t := rv.Type()
+			if pt, ok := t.(*types.Pointer); ok {
+				t = pt.Elem()
+			}
+			if nt, ok := t.(*types.Named); ok && nt.Obj().Name() == "Options" {
+				fns = append(fns, fn)
+			}
+		}
+	}
+	sort.Slice(fns, func(i, j int) bool { return fnName(fns[i]) < fnName(fns[j]) })
+	var rootOf func(v ssa.Value, depth int) string
+	rootOf = func(v ssa.Value, depth int) string {
+		if depth > 30 {
+			return ""
+		}
+		switch x := v.(type) {
+		case *ssa.Parameter:
+			if len(x.Parent().Params) > 0 && x.Parent().Params[0] == x {
+				return ""
+			}
+			return "parameter " + x.Name()
+		case *ssa.FreeVar:
+			return "captured argument " + x.Name()
+		case *ssa.TypeAssert:
+			return "a value taken out of an interface"
+		case *ssa.FieldAddr:
+			return rootOf(x.X, depth+1)
+		case *ssa.IndexAddr:
+			return rootOf(x.X, depth+1)
+		case *ssa.Field:
+			return rootOf(x.X, depth+1)
+		case *ssa.Lookup:
+			return rootOf(x.X, depth+1)
+		case *ssa.Index:
+			return rootOf(x.X, depth+1)
+		case *ssa.UnOp:
+			return rootOf(x.X, depth+1)
+		case *ssa.Extract:
+			return rootOf(x.Tuple, depth+1)
+		case *ssa.ChangeType:
+			return rootOf(x.X, depth+1)
+		case *ssa.Convert:
+			return rootOf(x.X, depth+1)
+		case *ssa.Slice:
+			return rootOf(x.X, depth+1)
+		case *ssa.Phi:
+			for _, e := range x.Edges {
+				if r := rootOf(e, depth+1); r != "" {
+					return r
+				}
+			}
+		}
+		return ""
+	}
+	n := 0
+	for _, fn := range fns {
+		name := fnName(fn)
+		c.sawFunc(name)
+		bad, badPos := "", fn.Pos()
+		for _, b := range fn.Blocks {
+			for _, ins := range b.Instrs {
+				var target ssa.Value
+				switch x := ins.(type) {
+				case *ssa.MapUpdate:
+					target = x.Map
+				case *ssa.Store:
+					if _, isAlloc := x.Addr.(*ssa.Alloc); isAlloc {
+						continue
+					}
+					target = x.Addr
+				default:
+					continue
+				}
+				c.CallSites++
+				if r := rootOf(target, 0); r != "" && bad == "" {
+					bad, badPos = r, ins.Pos()
+				}
+			}
+		}
+		n++
+		c.check(bad == "", R, name, c.P.Pos(badPos), "writes instance-owned storage only",
+			fmt.Sprintf("%s writes through %s: the value belongs to the caller and may configure another instance, whose configuration changes with this one's", name, bad))
+	}
+	if n == 0 {
+		c.undecided(R, "anchor:options", "-", "no option closure or Options method found")
+	}
+	c.floor(R, 10, "ten option closures and the Options setters")
+}
+
+// localCopiesOf: locals that, at position `before`, can only hold opt.<F>: their single definition
+// before that point is `l := opt.F` (or var l = opt.F) and nothing else assigns them earlier.
+func localCopiesOf(pkg *packages.Package, body *ast.BlockStmt, opt types.Object, before token.Pos) map[types.Object]string {
+	out := map[types.Object]string{}
+	bad := map[types.Object]bool{}
+	ast.Inspect(body, func(n ast.Node) bool {
+		as, ok := n.(*ast.AssignStmt)
+		if !ok || as.Pos() >= before {
+			return true
+		}
+		for i, l := range as.Lhs {
+			id, isId := l.(*ast.Ident)
+			if !isId {
+				continue
+			}
+			o := objOf(pkg, id)
+			if o == nil {
+				continue
+			}
+			if len(as.Lhs) == len(as.Rhs) {
+				if f, ok := fieldOf(pkg, as.Rhs[i], opt); ok && f != "" {
+					if _, isCall := as.Rhs[i].(*ast.CallExpr); !isCall {
+						if prev, seen := out[o]; seen && prev != f {
+							bad[o] = true
+						}
+						out[o] = f
+						continue
+					}
+				}
+			}
+			bad[o] = true
+		}
+		return true
+	})
+	for o := range bad {
+		delete(out, o)
+	}
+	return out
+}
+
+// condFactsLocal: non-emptiness facts (true = non-empty) a condition states about the local l.
+func condFactsLocal(pkg *packages.Package, cond ast.Expr, positive bool, l types.Object) []bool {
+	switch e := cond.(type) {
+	case *ast.ParenExpr:
+		return condFactsLocal(pkg, e.X, positive, l)
+	case *ast.UnaryExpr:
+		if e.Op == token.NOT {
+			return condFactsLocal(pkg, e.X, !positive, l)
+		}
+	case *ast.BinaryExpr:
+		switch e.Op {
+		case token.LAND:
+			if positive {
+				return append(condFactsLocal(pkg, e.X, true, l), condFactsLocal(pkg, e.Y, true, l)...)
+			}
+		case token.LOR:
+			if !positive {
+				return append(condFactsLocal(pkg, e.X, false, l), condFactsLocal(pkg, e.Y, false, l)...)
+			}
+		case token.EQL, token.NEQ:
+			x, y := e.X, e.Y
+			if _, ok := constOf(pkg, x); ok || isNilIdent(pkg, x) {
+				x, y = y, x
+			}
+			id, isId := x.(*ast.Ident)
+			if !isId || objOf(pkg, id) != l {
+				return nil
+			}
+			empty := isNilIdent(pkg, y)
+			if v, ok := constOf(pkg, y); ok && v.isStr() && v.str() == "" {
+				empty = true
+			}
+			if !empty {
+				return nil
+			}
+			return []bool{(e.Op == token.NEQ) == positive}
+		}
+	}
+	return nil
 }
 
 // classifyGlobalMutability: "init-only" when the variable (and what it refers to) is written only
